@@ -1,5 +1,6 @@
 """C18 -- generation is deterministic and always yields an importable package (engines A + C + D)."""
 import ast
+import os
 import re
 
 from ..core import AnalysisError
@@ -74,15 +75,19 @@ def _snake(name):
 
 
 # ---------------------------------------------------------------- whole-program runs
-def program_tree():
+def program_tree(edited=False):
     """A valid multi-file spec tree: every documented directory, cross-file references in every direction that
-    is not into a packet directory from outside it (F9, see C20), packets in both packet directories, comments."""
+    is not into a packet directory from outside it (F9, see C20), packets in both packet directories, comments.
+    `edited`: the same tree after an edit that keeps every name -- other ordinals, wider enums, one more field in
+    every struct and in a packet."""
     nm = Namer()
+    ordinal = (lambda t: str(int(t) + 5)) if edited else (lambda t: t)
+    width = "short" if edited else "char"
 
     def f(n, t, **k):
         return Elem("field", dict({"name": n, "type": t}, **k))
-    fam = Elem("enum", {"name": "PacketFamily", "type": "char"}, [Elem("value", {"name": "Fam"}, text="1"), Elem("value", {"name": "Other"}, text="2")])
-    act = Elem("enum", {"name": "PacketAction", "type": "char"}, [Elem("value", {"name": "Act"}, text="1")])
+    fam = Elem("enum", {"name": "PacketFamily", "type": "char"}, [Elem("value", {"name": "Fam"}, text=ordinal("1")), Elem("value", {"name": "Other"}, text=ordinal("2"))])
+    act = Elem("enum", {"name": "PacketAction", "type": "char"}, [Elem("value", {"name": "Act"}, text=ordinal("1"))])
     names = {d: (nm.name("Enum" + t), nm.name("Struct" + t)) for d, t in
              (("", "Root"), ("map", "Map"), ("net", "Net"), ("net/client", "Client"), ("net/server", "Server"), ("pub", "Pub"), ("pub/server", "PubServer"))}
     files = {}
@@ -94,13 +99,15 @@ def program_tree():
             if d2 == d or (d2 in ("net/client", "net/server")):
                 continue
             body.append(f(nm.name("x"), names[d2][0]))
-        kids = [Elem("enum", {"name": en, "type": "char"}, [Elem("value", {"name": nm.name("V")}, text="0")], comment=nm.text("c")),
+        if edited:
+            body.append(f("added_by_the_edit", "short"))
+        kids = [Elem("enum", {"name": en, "type": width}, [Elem("value", {"name": nm.name("V")}, text=ordinal("0"))], comment=nm.text("c")),
                 Elem("struct", {"name": sn}, body, comment=nm.text("c"))]
         if d == "net":
             kids = [fam, act] + kids
         if d in ("net/client", "net/server"):
             kids.append(Elem("packet", {"family": "Fam", "action": "Act"}, [f(nm.name("p"), names[""][1]), f(nm.name("q"), names[d][1], optional="true")]))
-            kids.append(Elem("packet", {"family": "Other", "action": "Act"}, []))
+            kids.append(Elem("packet", {"family": "Other", "action": "Act"}, [f("added_by_the_edit", "three")] if edited else []))
         files[d] = Elem("protocol", {}, kids)
     return files
 
@@ -172,6 +179,28 @@ def program(rep, index):
                        _diff_files(baseline[1], f1) or "identical to the output for order '%s'" % baseline[0])
             package_rules(rep, inst, r1, f1)
     rep.floor("program evaluations", 4)
+    # P10: nothing learnt from one run's XML survives into the next: the specification is edited between two runs of one
+    # generator instance (every name kept; ordinals, enum widths and field lists changed) and the second run must write
+    # what a fresh generator writes for the edited tree
+    def edited_tree():
+        return program_tree(True)
+    fresh = [o for o in run_program(session, edited_tree, order=dirs, runs=1, fresh_output=True)]
+    both = [o for o in run_program(session, [program_tree, edited_tree], order=dirs, runs=2, fresh_output=True)]
+    rep.count("edited-specification evaluations", len(fresh) + len(both))
+    if len(fresh) != 1 or fresh[0].rejected:
+        raise AnalysisError("C18.P10: the edited reference tree is not generated on exactly one path (%d paths, %s)"
+                            % (len(fresh), [o.exc for o in fresh if o.rejected]))
+    want = {f["path"]: f["content"] for f in fresh[0].value[0].files}
+    for o in both:
+        inst = "generate() twice on one instance, the 7-directory tree edited in between, path[%s]" % o.path()
+        if o.rejected:
+            rep.ob("C18.P10 no-state-carried-from-one-run's-XML-to-the-next", inst, False,
+                   "the second run is rejected with %s at %s although a fresh generator accepts the edited tree" % (o.exc, o.exc_site))
+            continue
+        got = {f["path"]: f["content"] for f in o.value[1].files}
+        rep.ob("C18.P10 no-state-carried-from-one-run's-XML-to-the-next", inst, got == want,
+               _diff_files(want, got) or "%d files, identical to a fresh generator's output for the edited tree" % len(want))
+    rep.floor("edited-specification evaluations", 2)
     # P9: a set has no order -- the same tree evaluated with every set iterated in insertion order, reversed, rotated
     witness = None
     base = None
@@ -481,6 +510,92 @@ def _reachable(index, modname, clsname, start):
     return seen
 
 
+def entry_point(rep, index):
+    """E1: the generator only adds and overwrites files, so the tree left behind is a function of the XML alone only if
+    the output directory is emptied first: in protocol.py (the command every build hook and script runs) every path of
+    the main block that reaches the generating call has passed through the call that removes the generated directory
+    (a must-pass-through walk over the main block; callees resolved to the module's own functions)."""
+    path = os.path.join(index.repo, "protocol.py")
+    if not os.path.isfile(path):
+        raise AnalysisError("anchor vanished: protocol.py")
+    tree = ast.parse(open(path, encoding="utf-8").read())
+    fns = {f.name: f for f in tree.body if isinstance(f, ast.FunctionDef)}
+
+    def local_value(fn, e):
+        """The expression a name stands for inside fn (assigned exactly once), normalised."""
+        if isinstance(e, ast.Name):
+            stores = [st for st in ast.walk(fn) if isinstance(st, ast.Assign) and len(st.targets) == 1
+                      and isinstance(st.targets[0], ast.Name) and st.targets[0].id == e.id]
+            if len(stores) == 1:
+                return ast.dump(stores[0].value)
+        return ast.dump(e)
+
+    def calls(fn):
+        return [c for c in ast.walk(fn) if isinstance(c, ast.Call)]
+
+    generating, cleaning, gen_line, clean_line = {}, {}, {}, {}
+    for name, fn in fns.items():
+        for c in calls(fn):
+            if isinstance(c.func, ast.Attribute) and c.func.attr == "generate" and c.args:
+                generating[name] = local_value(fn, c.args[0])
+                gen_line[name] = c.lineno
+        # rmtree of a directory, unconditionally or only guarded by that directory's existence
+        for st in fn.body:
+            inner = [st]
+            if isinstance(st, ast.If) and not st.orelse and any(isinstance(x, ast.Attribute) and x.attr in ("exists", "isdir", "is_dir") for x in ast.walk(st.test)):
+                inner = st.body
+            elif isinstance(st, ast.With):
+                inner = st.body
+            for x in inner:
+                if isinstance(x, ast.Expr) and isinstance(x.value, ast.Call):
+                    f = x.value.func
+                    if (isinstance(f, ast.Attribute) and f.attr == "rmtree" or isinstance(f, ast.Name) and f.id == "rmtree") and x.value.args:
+                        cleaning[name] = local_value(fn, x.value.args[0])
+                        clean_line[name] = x.lineno
+    main = next((st for st in tree.body if isinstance(st, ast.If) and isinstance(st.test, ast.Compare)
+                 and isinstance(st.test.left, ast.Name) and st.test.left.id == "__name__"), None)
+    if main is None or not generating:
+        raise AnalysisError("anchor vanished: protocol.py has no main block calling a function that runs ProtocolCodeGenerator.generate")
+    sites = []
+
+    def callee(st):
+        if isinstance(st, ast.Expr) and isinstance(st.value, ast.Call) and isinstance(st.value.func, ast.Name):
+            return st.value.func.id
+        return None
+
+    def walk(body, cleaned, trail):
+        """cleaned: the set of directories certainly removed on every path reaching this point."""
+        for st in body:
+            c = callee(st)
+            if c in cleaning and (c not in generating or clean_line[c] < gen_line[c]):
+                cleaned = cleaned | {cleaning[c]}
+            if c in generating:
+                sites.append((st.lineno, generating[c] in cleaned, trail))
+            if isinstance(st, ast.If):
+                a = walk(st.body, cleaned, trail + ["%s=T@%d" % (ast.unparse(st.test), st.lineno)])
+                b = walk(st.orelse, cleaned, trail + ["%s=F@%d" % (ast.unparse(st.test), st.lineno)])
+                cleaned = a & b
+            elif isinstance(st, (ast.For, ast.While)):
+                walk(st.body, cleaned, trail + ["loop@%d" % st.lineno])
+            elif isinstance(st, ast.With):
+                cleaned = walk(st.body, cleaned, trail)
+            elif isinstance(st, ast.Try):
+                walk(st.body, cleaned, trail + ["try@%d" % st.lineno])
+                for h in st.handlers:
+                    walk(h.body, cleaned, trail + ["except@%d" % h.lineno])
+                cleaned = walk(st.finalbody, cleaned, trail)
+            elif c is None and any(isinstance(x, ast.Call) and isinstance(x.func, ast.Name) and x.func.id in generating for x in ast.walk(st)):
+                raise AnalysisError("C18.E1: the generating function is called inside %s at protocol.py:%d" % (type(st).__name__, st.lineno))
+        return cleaned
+    walk(main.body, frozenset(), [])
+    for ln, ok, trail in sites:
+        rep.ob("C18.E1 entry-point-empties-the-output-directory-before-generating", "protocol.py:%d main block path[%s]" % (ln, ",".join(trail) or "-"), ok,
+               "the generated directory is removed on every path to this call" if ok else
+               "this call is reached without removing the generated directory first: files of types since renamed or removed stay behind")
+    rep.count("generating calls in the entry point", len(sites))
+    rep.floor("generating calls in the entry point", 1)
+
+
 def run(rep, index):
     rep.level = "other"
     rep.explanation = ("Determinism: static rules on the generator (no nondeterministic source, set iterations end in order-insensitive "
@@ -499,4 +614,5 @@ def run(rep, index):
     rep.floor("lattice accepted", 300)
     witness = program(rep, index)
     static_rules(rep, index, witness)
+    entry_point(rep, index)
     rep.undecided.append("generator success for valid specs beyond the shape lattice and its sequence bound; non-documented directory layouts")
